@@ -29,7 +29,7 @@ def demo(wt, seed):
         shutil.rmtree(os.path.join(wt, "tests"), ignore_errors=True)
         return ok, out[-300:]
     if os.path.exists(os.path.join(seed, "demo.sh")):
-        rc, out = sh(f"bash {os.path.join(seed, 'demo.sh')} 2>&1 | tail -5", cwd=wt, env=env)
+        rc, out = sh(f"bash {os.path.join(seed, 'demo.sh')} 2>&1", cwd=wt, env=env)
         return rc == 0, out[-300:]
     return None, "no demo"
 
